@@ -177,7 +177,7 @@ def residual_error_shapes(ctx, p):
             dst = d[-1] if d else None
             src = s[-1] if s else None
     # error built by a map_err closure
-    if inner[0] == "call" and inner[1] in ("core::result::Result::map_err",) and len(inner[2]) > 1 and inner[2][1][0] == "closure":
+    if inner[0] == "call" and inner[1] in ("core::result::Result::map_err",) and len(inner[2]) > 1 and inner[2][1][0] in ("closure", "fn"):      # (a named fn is a closure with a name)
         shapes = closure_ret_shapes(ctx, inner[2][1][1])
         if src == dst or src is None:
             return shapes, "map_err closure"
